@@ -3,7 +3,8 @@ From Coq Require Import String.
 From Coq Require Import ZArith List Bool.
 From LasV Require Import Lib.Base Lib.Layout Gen.GenHeaderLayout Gen.GenFormatBits Gen.GenDims Model.Las Model.LasSpec
   Model.LasFast Model.WriterAlias Model.DataAlias Proofs.HeaderLen Proofs.VlrProofs Proofs.HeaderProofs Proofs.WriterProofs Proofs.RoundTripProofs
-  Proofs.AppendProofs Proofs.LasFastProofs Proofs.WriterAliasProofs Proofs.DataAliasProofs.
+  Proofs.AppendProofs Proofs.LasFastProofs Proofs.WriterAliasProofs Proofs.DataAliasProofs
+  Model.Cursor Model.RecView Proofs.RecViewProofs Model.ReadBack Proofs.ReadBackProofs.
 Import ListNotations.
 Open Scope list_scope.
 Open Scope Z_scope.
@@ -143,7 +144,7 @@ From LasV Require Import Gen.GenExtraBytes Model.ExtraDims Proofs.ExtraDimsProof
 Theorem C01_paired_object_round_trips : forall gh hex others eb_last gr rex recs std,
   std_size gh = Some std ->
   forallb edim_okb hex = true -> nodupb (extra_names hex) = true ->
-  forallb (fun n => negb (mem_name n (std_names gh))) (extra_names hex) = true ->
+  forallb (fun n => negb (mem_name n (rec_names gh))) (extra_names hex) = true ->
   filter is_eb_vlr others = [] ->
   recs_okb std rex recs = true ->
   gate gh hex gr rex = true ->
@@ -186,7 +187,7 @@ Print Assumptions C01_refused_pairing_is_an_error.
 Theorem C01_built_header_describes_format : forall gh hex recs others eb_last std,
   std_size gh = Some std ->
   forallb edim_okb hex = true -> nodupb (extra_names hex) = true ->
-  forallb (fun n => negb (mem_name n (std_names gh))) (extra_names hex) = true ->
+  forallb (fun n => negb (mem_name n (rec_names gh))) (extra_names hex) = true ->
   (forall b, In b recs -> len b = std + extras_size hex) -> filter is_eb_vlr others = [] ->
   exists s, init_ex gh hex recs others eb_last = Ok s
     /\ st_extras s = hex
@@ -224,3 +225,72 @@ Example C01_pairing_nonvacuous :
   | Err _ => false
   end = true.
 Proof. vm_compute. reflexivity. Qed.
+
+(* ---------------------------------------------------------------------------------------------------------------------- *)
+(* round 6: selections that are views (Model/RecView.v); reading sessions with chunk iterators (Model/ReadBack.v)              *)
+(* ---------------------------------------------------------------------------------------------------------------------- *)
+
+(* writing never modifies what it is given, over whole histories: a history of selections (views and copies), edits through any
+   object and writes of any object leaves the world - every buffer, and which buffer and positions every object presents - that
+   the same history WITHOUT its writes leaves *)
+Theorem C01_writes_transparent : forall ops w, fst (vrun w ops) = fst (vrun w (filter (fun op => negb (is_write op)) ops)).
+Proof. exact writes_transparent. Qed.
+Print Assumptions C01_writes_transparent.
+
+Theorem C01_write_is_the_presented_records : forall w i, snd (vstep w (VWrite i)) = Some (concat (records_at w i)).
+Proof. exact write_is_presented. Qed.
+Print Assumptions C01_write_is_the_presented_records.
+
+(* a slice stays a view of the object it was taken from through everything that is done afterwards - writes of either object
+   included: at any later time it presents the records its parent presents at the selected positions *)
+Theorem C01_view_stays_view : forall w i sel o ops, nth_error (vw_objs w) i = Some o ->
+  Forall (fun k => (k < length (vo_idx o))%nat) sel ->
+  let j := length (vw_objs w) in
+  let w2 := fst (vrun (fst (vstep w (VView i sel))) ops) in
+  records_at w2 j = pick [] (records_at w2 i) sel.
+Proof. exact view_stays_view. Qed.
+Print Assumptions C01_view_stays_view.
+
+(* a mask / index-list selection is a copy: it lives in a buffer of its own, and an edit through an object over one buffer is not
+   seen by an object over another *)
+Theorem C01_copy_has_fresh_buffer : forall w i sel o, nth_error (vw_objs w) i = Some o ->
+  nth_error (vw_objs (fst (vstep w (VCopy i sel)))) (length (vw_objs w)) = Some (mkVO (length (vw_bufs w)) (seq 0 (length sel))).
+Proof. exact copy_has_fresh_buffer. Qed.
+Print Assumptions C01_copy_has_fresh_buffer.
+
+Theorem C01_edit_unseen_over_other_buffer : forall w i off vals o j oj, nth_error (vw_objs w) i = Some o ->
+  nth_error (vw_objs w) j = Some oj -> vo_buf oj <> vo_buf o ->
+  records_at (fst (vstep w (VEdit i off vals))) j = records_at w j.
+Proof. exact edit_unseen_over_other_buffer. Qed.
+Print Assumptions C01_edit_unseen_over_other_buffer.
+
+(* reading back through chunk iterators: after ANY history on the reader (reads, seeks, steps of this or of another iterator),
+   draining an iterator of chunk size k <> 0 gives consecutive non-empty pieces covering exactly [cursor, n) ... *)
+Theorem C01_drain_after_any_history : forall n k ops fuel, 0 <= n -> k <> 0 -> n < Z.of_nat fuel ->
+  let s := after n ops in
+  tiles (sp_c s) n (snd (drain fuel s k)) /\ sp_c (fst (drain fuel s k)) = n.
+Proof. exact drain_after_any_history. Qed.
+Print Assumptions C01_drain_after_any_history.
+
+(* ... so a second pass (seek(0), then the same or a new iterator) reads every record again *)
+Theorem C01_second_pass_reads_everything : forall n k ops fuel, 0 < n -> k <> 0 -> n < Z.of_nat fuel ->
+  let s := fst (spec_step (after n ops) (CSeek 0 0)) in
+  tiles 0 n (snd (drain fuel s k)) /\ sp_c (fst (drain fuel s k)) = n.
+Proof. exact second_pass_reads_everything. Qed.
+Print Assumptions C01_second_pass_reads_everything.
+
+(* ... and pieces that tile [a, b) carry exactly the records a .. b-1, in order *)
+Theorem C01_tiles_carry_the_records : forall (recs : list (list Z)) l a b, 0 <= a -> tiles a b l ->
+  concat (map (piece recs) l) = firstn (Z.to_nat (b - a)) (skipn (Z.to_nat a) recs).
+Proof. exact (@tiles_carry_the_records (list Z)). Qed.
+Print Assumptions C01_tiles_carry_the_records.
+
+(* non-vacuity: a cloud of four 2-byte records; s1 = cloud[::2] is written, then edited: the cloud sees the edit at records 0 and 2,
+   a copy made before does not; a reader of 5 points: one step of an iterator of chunk size 2, seek(0), then draining the same
+   iterator gives [0,2) [2,4) [4,5) *)
+Example C01_view_nonvacuous :
+  let w0 := vworld_of [[1; 1]; [2; 2]; [3; 3]; [4; 4]] in
+  let '(w, outs) := vrun w0 [VCopy 0 [0%nat; 2%nat]; VView 0 [0%nat; 2%nat]; VWrite 2; VEdit 2 1 [[9]; [8]]; VWrite 0; VWrite 1] in
+  outs = [[1; 1; 3; 3]; [1; 9; 2; 2; 3; 8; 4; 4]; [1; 1; 3; 3]]
+  /\ snd (drain 9 (fst (spec_step (after 5 [CNext 2]) (CSeek 0 0))) 2) = [(0, 2); (2, 4); (4, 5)].
+Proof. vm_compute. split; reflexivity. Qed.
